@@ -21,7 +21,7 @@ ASSUMPTIONS = [
     "ATTRIBUTE_UNRECOGNIZED / ATTRIBUTE_EXPECTED_ENUM with the attribute name as first detail",
     "fail-fast: any exception of the MetapypeRuleError family counts as 'raises for the first'",
 ]
-REQUIRED = ["domain_words_in_free_form_attributes", "validations_on_long_lived_node", "rule_table_unchanged_after_queries", "aliasing_probes", "assignments_valid", "assignments_invalid", "introspection_required_checked", "introspection_values_checked",
+REQUIRED = ["nodes_below_a_real_parent", "domain_words_in_free_form_attributes", "validations_on_long_lived_node", "rule_table_unchanged_after_queries", "aliasing_probes", "assignments_valid", "assignments_invalid", "introspection_required_checked", "introspection_values_checked",
             "viol_required", "viol_unrecognized", "viol_enum"]
 EXHAUSTIVE = {"quick": True, "thorough": True}
 
@@ -97,7 +97,13 @@ def observe(rule_name, element, kids, assignment, reuse=False):
             if list(n.attributes) != [k for k, _ in assignment]:
                 n.attributes = dict(assignment)
         else:
-            n = emlkit.make_node(rule_name, element, kids, attributes=dict(assignment))
+            # a third of the nodes hang below an element of the vocabulary that allows them (a title below an award, below a dataset,
+            # below a project): what the parent is called says nothing about the node's attributes
+            below = False
+            parents = emlkit.parents_allowing(element) if (len(assignment) + len(element or "")) % 3 == 0 else ()
+            if parents:
+                below = parents[(len(assignment) + sum(len(str(v)) for _, v in assignment)) % len(parents)]
+            n = emlkit.make_node(rule_name, element, kids, attributes=dict(assignment), nested=below)
         if declared_ns:
             # the prefix of a colon-named attribute is bound in the node's namespace map (as on nodes of imported or saved models):
             # the attribute is in the plain attribute dictionary all the same, and the rule does not list it
@@ -111,6 +117,8 @@ def observe(rule_name, element, kids, assignment, reuse=False):
             # a list shared with earlier validations (as validate.tree does): an unrelated entry plus whatever an identical
             # twin node produces; only what this call appends is judged, and what was there must stay
             errs.append(_EARLIER)
+            if len(assignment) % 4 == 3:
+                errs.extend([_EARLIER] * 1200)        # a list that is already very long
             twin = emlkit.make_node(rule_name, element, kids, attributes=dict(assignment))
             try:
                 emlkit.validate_as(rule_name, twin, errs)
@@ -325,6 +333,28 @@ def run_rule(ctx, rule_name, part=0, parts=1):
                     ctx.sample({"rule": rule_name, "element": el, "attributes": order, "expected_violations": exp,
                                 "failfast": ff, "collecting": cod})
     if part == 0:
+        # every element of the rule below every element of the vocabulary that allows it, with every attribute the rule declares present
+        full = dict(valid0_ := [(a, spec[1] if len(spec) > 1 else "v") for a, spec in table.items()])
+        for el in elements:
+            for gp in emlkit.parents_allowing(el):
+                n_ = emlkit.make_node(rule_name, el, kids, attributes=full, nested=gp)
+                for mode in ("failfast", "collecting"):
+                    errs_ = None if mode == "failfast" else []
+                    try:
+                        emlkit.validate_as(rule_name, n_, errs_)
+                        bad = [e for e in (errs_ or []) if e[0].name in emlkit.ATTR_CODES]
+                    except emlkit.mexc.MetapypeRuleError as ex:
+                        bad = [ex]
+                    except Exception as ex:
+                        bad = [ex]
+                    ctx.evaluated()
+                    ctx.count("nodes_below_a_real_parent")
+                    if bad:
+                        ctx.violation(f"rejects-valid-attributes|{mode}|below-real-parent", f"{rule_name}: <{el}> below <{gp}> with every declared attribute "
+                                                                                          f"at a listed value: {str(bad[0])[:160]}",
+                                      {"rule": rule_name, "element": el, "children": kids, "assignment": [list(x) for x in valid0_], "below": gp})
+                        break
+                emlkit.discard(n_)
         # free-form attributes take any value: every word of the domain (directories, functions, phone types, languages ...) on an
         # otherwise valid node is accepted, and nothing else about the node is reported because of it
         from vlib import domain
